@@ -26,6 +26,10 @@ func init() {
 			"(R04.6) after every lowered call every mutable global is re-read unconditionally; (R04.8) the Go side of instance-relative builtins (memory.grow, table.grow, ref.func, wait/notify, listeners) acts on the calling instance, not on the entry instance. " +
 			"NOT decided: visibility of writes through generated code, state after a failed instantiation.",
 		Rules: []core.Rule{
+			{ID: "R04.9", Template: "T-CONSULT", Text: "interpreter return_call_indirect re-uses the frame only within the same instance", Min: 1},
+			{ID: "R04.10", Template: "T-MUSTPASS", Text: "a store to an imported global reloads the other imported mutable globals (genuine defect found and fixed)", Min: 1},
+			{ID: "R04.11", Template: "T-SIBLING", Text: "wazevo: the reference of an imported function is the defining module's function instance (genuine defect found and fixed)", Min: 1},
+			{ID: "R04.12", Template: "T-MUSTPASS", Text: "active element segments write every slot they cover, null initialisers included (known finding)", Min: 1},
 			{ID: "R04.1", Template: "T-WHOWRITES", Text: "import slots receive the exporter's object itself", Min: 3},
 			{ID: "R04.2", Template: "T-CONSULT", Text: "per-kind link-time type match is complete", Min: 9},
 			{ID: "R04.3", Template: "T-WHOCALLS", Text: "direct readers of GlobalInstance.Val/ValHi are the listed ones", Min: 1},
@@ -36,6 +40,9 @@ func init() {
 		},
 		Run: runC04,
 		Controls: []core.Control{
+			{Name: "tail-call-guard-compares-modules", File: "internal/engine/interpreter/interpreter.go", Old: "if tf.moduleInstance != f.moduleInstance {", New: "if tf.parent.source != f.parent.source {", Rule: "R04.9", Substr: "return_call_indirect"},
+			{Name: "aliased-globals-not-reloaded", File: "internal/engine/wazevo/frontend/lower.go", Old: "\t\tfor _, other := range c.mutableGlobalVariablesIndexes {\n\t\t\tif other != index && other < c.m.ImportGlobalCount {\n\t\t\t\t_ = c.getWasmGlobalValue(other, true)\n\t\t\t}\n\t\t}\n", New: "", Rule: "R04.10", Substr: "imported global"},
+			{Name: "imported-function-reference-from-own-opaque", File: "internal/engine/wazevo/module_engine.go", Old: "\t\timported := &m.importedFunctions[funcIndex]\n\t\treturn imported.me.FunctionInstanceReference(imported.indexInModule)\n", New: "\t\tbegin, _, _ := m.parent.offsets.ImportedFunctionOffset(funcIndex)\n\t\treturn uintptr(unsafe.Pointer(&m.opaque[begin]))\n", Rule: "R04.11", Substr: "imported function"},
 			{Name: "global-copied-on-import", File: "internal/wasm/store.go", Old: "\t\t\t\tm.Globals[i.IndexPerType] = importedGlobal\n", New: "\t\t\t\tcp := *importedGlobal\n\t\t\t\tm.Globals[i.IndexPerType] = &cp\n", Rule: "R04.1", Substr: "Globals"},
 			{Name: "table-type-unchecked", File: "internal/wasm/store.go", Old: "\t\t\t\tif expected.Type != importedTable.Type {\n\t\t\t\t\terr = errorInvalidImport(i, fmt.Errorf(\"table type mismatch: %s != %s\",\n\t\t\t\t\t\tRefTypeName(expected.Type), RefTypeName(importedTable.Type)))\n\t\t\t\t\treturn\n\t\t\t\t}\n", New: "", Rule: "R04.2", Substr: "table"},
 			{Name: "memory-shared-one-direction", File: "internal/wasm/store.go", Old: "if expected.IsShared != importedMemory.Shared {", New: "if importedMemory.Shared && !expected.IsShared {", Rule: "R04.2", Substr: "sharedness must be equal"},
@@ -53,6 +60,7 @@ func init() {
 
 func runC04(c *core.Ctx) {
 	checkSharednessRelation(c, "R04.2")
+	checkRound2C04(c)
 	c.SSA()
 	wp := c.Pkg("internal/wasm")
 	info := wp.TypesInfo
@@ -569,5 +577,178 @@ func checkSharednessRelation(c *core.Ctx, rule string) {
 	})
 	if !found {
 		c.Violate(rule, "memory import: declared and actual sharedness must be equal", 0, "no link-time check compares Memory.IsShared with MemoryInstance.Shared")
+	}
+}
+
+// ---- R04.9 – R04.12 (round 2 and baseline findings) ----
+
+func checkRound2C04(c *core.Ctx) {
+	// R04.9 the interpreter re-uses the frame for a tail call only within the same instance
+	if p := c.Pkg("internal/engine/interpreter"); p != nil {
+		info := p.TypesInfo
+		found := false
+		core.AllFuncDecls(p, func(fd *ast.FuncDecl) {
+			if fd.Name.Name != "callNativeFunc" {
+				return
+			}
+			ast.Inspect(fd.Body, func(x ast.Node) bool {
+				cc, ok := x.(*ast.CaseClause)
+				if !ok || len(cc.List) == 0 || constNameOf(info, cc.List[0]) != "operationKindTailCallReturnCallIndirect" {
+					return true
+				}
+				found = true
+				// the guard whose then-branch falls back to a regular call
+				ok2 := false
+				var cond string
+				ast.Inspect(cc, func(y ast.Node) bool {
+					is, isIf := y.(*ast.IfStmt)
+					if !isIf {
+						return true
+					}
+					callsRegular := false
+					ast.Inspect(is.Body, func(z ast.Node) bool {
+						if call, ok := z.(*ast.CallExpr); ok {
+							if f := core.Callee(info, call); f != nil && f.Name() == "callFunction" {
+								callsRegular = true
+							}
+						}
+						return true
+					})
+					if !callsRegular {
+						return true
+					}
+					cond = core.ExprStr(is.Cond)
+					if be, ok := ast.Unparen(is.Cond).(*ast.BinaryExpr); ok && be.Op == token.NEQ {
+						fx, fy := core.FieldOf(info, be.X), core.FieldOf(info, be.Y)
+						if fx != nil && fy != nil && fx == fy && strings.Contains(fx.Type().String(), "ModuleInstance") {
+							ok2 = true
+						}
+					}
+					return true
+				})
+				c.Check(ok2, "R04.9", "interpreter return_call_indirect re-uses the frame only within the same instance", cc.Pos(), "falls back to a regular call when `callee.moduleInstance != current.moduleInstance`",
+					"the fallback guard is `"+cond+"`, which does not compare the two functions' instances: a tail call through a shared table into a sibling instance (same module, another instance) runs the callee against the caller's cached memory, globals and tables")
+				return false
+			})
+		})
+		if !found {
+			c.Undecided("R04.9", "interpreter return_call_indirect arm", 0, "not found")
+		}
+	}
+	// R04.10 a store to an imported global reloads the other imported mutable globals (aliases)
+	if p := c.Pkg("internal/engine/wazevo/frontend"); p != nil {
+		info := p.TypesInfo
+		var set, get *ast.FuncDecl
+		core.AllFuncDecls(p, func(fd *ast.FuncDecl) {
+			switch fd.Name.Name {
+			case "setWasmGlobalValue":
+				set = fd
+			case "getWasmGlobalValue":
+				get = fd
+			}
+		})
+		if set == nil || get == nil {
+			c.Undecided("R04.10", "global accessors of the frontend", 0, "setWasmGlobalValue / getWasmGlobalValue not found")
+		} else {
+			// in the imported branch: a loop that force-loads other globals
+			ok := false
+			ast.Inspect(set.Body, func(x ast.Node) bool {
+				is, isIf := x.(*ast.IfStmt)
+				if !isIf || !strings.Contains(core.ExprStr(is.Cond), "ImportGlobalCount") {
+					return true
+				}
+				ast.Inspect(is.Body, func(y ast.Node) bool {
+					if rs, isLoop := y.(*ast.RangeStmt); isLoop {
+						ast.Inspect(rs.Body, func(z ast.Node) bool {
+							if call, isC := z.(*ast.CallExpr); isC && core.Callee(info, call) == info.Defs[get.Name] && len(call.Args) == 2 && core.ExprStr(call.Args[1]) == "true" {
+								ok = true
+							}
+							return true
+						})
+					}
+					return true
+				})
+				return true
+			})
+			c.Check(ok, "R04.10", "a store to an imported global reloads the other imported mutable globals", set.Pos(), "the imported branch force-loads the other imported mutable globals",
+				"the frontend keeps one SSA variable per global index and does not refresh the others after a store to an imported global: when the same global instance is imported twice (or exported under two names) `global.get` of the alias returns the stale value")
+		}
+	}
+	// R04.11 a reference to an imported function is the defining module's function instance
+	if p := c.Pkg("internal/engine/wazevo"); p != nil {
+		info := p.TypesInfo
+		fd := core.FuncDecl(p, "moduleEngine", "FunctionInstanceReference")
+		if fd == nil {
+			c.Undecided("R04.11", "wazevo FunctionInstanceReference", 0, "not found")
+		} else {
+			ok := false
+			var what string
+			ast.Inspect(fd.Body, func(x ast.Node) bool {
+				is, isIf := x.(*ast.IfStmt)
+				if !isIf || !strings.Contains(core.ExprStr(is.Cond), "ImportFunctionCount") {
+					return true
+				}
+				ast.Inspect(is.Body, func(y ast.Node) bool {
+					if rs, isR := y.(*ast.ReturnStmt); isR && len(rs.Results) == 1 {
+						what = core.ExprStr(rs.Results[0])
+						if call, isC := rs.Results[0].(*ast.CallExpr); isC {
+							if f := core.Callee(info, call); f != nil && f.Name() == "FunctionInstanceReference" {
+								ok = true
+							}
+						}
+					}
+					return true
+				})
+				return true
+			})
+			c.Check(ok, "R04.11", "wazevo: the reference of an imported function is taken from the engine of its defining module", fd.Pos(), "delegates to the exporter's FunctionInstanceReference",
+				"for an imported function the reference is `"+what+"`: the importer's opaque entry is laid out like a function instance but carries no index, so LookupFunction on a table slot holding it resolves to function 0 of the exporter")
+		}
+	}
+	// R04.12 active element segments write every slot they cover, null initialisers included
+	if p := c.Pkg("internal/wasm"); p != nil {
+		info := p.TypesInfo
+		fd := core.FuncDecl(p, "ModuleInstance", "applyElements")
+		if fd == nil {
+			c.Undecided("R04.12", "applyElements", 0, "not found")
+		} else {
+			var bad []string
+			n := 0
+			ast.Inspect(fd.Body, func(x ast.Node) bool {
+				rs, ok := x.(*ast.RangeStmt)
+				if !ok || !strings.HasSuffix(core.ExprStr(rs.X), ".Init") {
+					return true
+				}
+				n++
+				// a `continue` before the store of the iteration
+				for _, st := range rs.Body.List {
+					if as, ok := st.(*ast.AssignStmt); ok {
+						if _, isIdx := as.Lhs[0].(*ast.IndexExpr); isIdx {
+							break
+						}
+					}
+					if is, ok := st.(*ast.IfStmt); ok {
+						stores := false
+						ast.Inspect(is.Body, func(y ast.Node) bool {
+							if as, ok := y.(*ast.AssignStmt); ok {
+								if _, isIdx := as.Lhs[0].(*ast.IndexExpr); isIdx {
+									stores = true
+								}
+							}
+							return true
+						})
+						if !stores && len(is.Body.List) > 0 {
+							if br, ok := is.Body.List[len(is.Body.List)-1].(*ast.BranchStmt); ok && br.Tok == token.CONTINUE {
+								bad = append(bad, "`if "+core.ExprStr(is.Cond)+" { continue }` at "+c.Pos(is.Pos()))
+							}
+						}
+					}
+				}
+				return true
+			})
+			_ = info
+			c.Check(len(bad) == 0 && n > 0, "R04.12", "active element segments write every slot they cover (null initialisers included)", fd.Pos(), "every iteration stores into the table",
+				strings.Join(bad, "; ")+" skips the store: a `ref.null` initialiser does not null out a slot that an earlier segment (or, for an imported table, another module) populated, so a later call_indirect calls the old function instead of trapping")
+		}
 	}
 }
